@@ -143,6 +143,36 @@ def build(timeout=1500):
         return True, "\n".join(log), tstat
 
 
+def translator_tie(chk, tie_files, gen_files):
+    """Second tie: compile the regenerated gen/Gen_*.v and the static gen/Tie_*.v (gen = hand model for all arguments).
+    Not part of `make`: a source change the translator does not understand must not break the build - the tie is then
+    reported as unavailable and the correspondence run alone carries the property."""
+    st = {k: v for k, v in (chk.translator or {}).items()}
+    res = {"status": "ok", "files": list(tie_files), "untranslatable": {k: v for k, v in st.items() if v != "ok"}}
+    with Lock("gen.lock"):
+        for rel in list(gen_files) + list(tie_files):
+            vo = os.path.join(COQ, rel + "o")
+            src = os.path.join(COQ, rel)
+            if os.path.exists(vo) and os.path.getmtime(vo) >= os.path.getmtime(src) and rel in gen_files:
+                continue
+            rc, out = sh("timeout 300 coqc -Q . CM %s" % rel, cwd=COQ, timeout=330)
+            if rc != 0:
+                res["status"] = "unavailable"
+                res["failed_file"] = rel
+                res["log"] = out[-1500:]
+                break
+            if rel in tie_files:
+                n_thm = len(re.findall(r"(?m)^Theorem ", open(src).read()))
+                n_closed = out.count("Closed under the global context")
+                res.setdefault("theorems", 0)
+                res["theorems"] += n_thm
+                if n_closed != n_thm:
+                    res["status"] = "unavailable"
+                    res["log"] = out[-1500:]
+    chk.ties["translator"] = res
+    return res["status"] == "ok"
+
+
 THEOREM_RE = re.compile(r"^\s*(Theorem|Example)\s+([A-Za-z0-9_']+)", re.M)
 
 
@@ -342,8 +372,9 @@ class Check:
     # ---- verdict ----
     def finish(self, level_note=""):
         wall = time.time() - self.t0
-        os.makedirs(os.path.join(VERIF, "replays"), exist_ok=True)
-        os.makedirs(os.path.join(VERIF, "evidence"), exist_ok=True)
+        OUT = os.environ.get("VERIF_OUT") or VERIF     # seed/mutation runs write their evidence and replays elsewhere
+        os.makedirs(os.path.join(OUT, "replays"), exist_ok=True)
+        os.makedirs(os.path.join(OUT, "evidence"), exist_ok=True)
         lines = []
         rc = 0
         for key, k in sorted(self.known_hits.items()):
@@ -357,7 +388,7 @@ class Check:
                     continue
                 seen.add(v["key"])
                 nviol += 1
-                path = os.path.join(VERIF, "replays", "%s_%s.json" % (self.pid, re.sub(r"[^A-Za-z0-9_.-]", "_", v["key"])[:60]))
+                path = os.path.join(OUT, "replays", "%s_%s.json" % (self.pid, re.sub(r"[^A-Za-z0-9_.-]", "_", v["key"])[:60]))
                 json.dump({"property": self.pid, "kind": "input", "seed": SEED, "tier": self.tier, **v,
                            "all_with_key": [w for w in self.violations if w["key"] == v["key"]][:10]},
                           open(path, "w"), indent=1, default=str)
@@ -366,7 +397,7 @@ class Check:
             # no failing input found, but the property is no longer shown to hold
             rc = 1
             nviol = 1
-            path = os.path.join(VERIF, "replays", "%s_unproved.json" % self.pid)
+            path = os.path.join(OUT, "replays", "%s_unproved.json" % self.pid)
             json.dump({"property": self.pid, "kind": "theorem" if self.obligation_failures else "correspondence",
                        "seed": SEED, "tier": self.tier,
                        "no_longer_checks": self.obligation_failures + ["correspondence suite " + t["suite"] for t in self.tie_breaks[:5]],
@@ -410,7 +441,7 @@ class Check:
             "wall_s": round(wall, 2),
             "violations": nviol,
         }
-        json.dump(ev, open(os.path.join(VERIF, "evidence", "%s.json" % self.pid), "w"), indent=1, default=str)
+        json.dump(ev, open(os.path.join(OUT, "evidence", "%s.json" % self.pid), "w"), indent=1, default=str)
         for l in lines:
             print(l)
         print("%s %s: obligations %d/%d, evaluations %d, distinct non-trivial %d, tie-breaks %d, violations %d, %.1fs"
